@@ -74,6 +74,14 @@ MUTANTS = [
     ("C11", TM + "_tree.py", "            if nd.taxon is not None:\n                self.taxon_namespace.add_taxon(nd.taxon)\n        return self.taxon_namespace",
      "            if nd.taxon is not None and nd.is_leaf():\n                self.taxon_namespace.add_taxon(nd.taxon)\n        return self.taxon_namespace",
      "Tree.update_taxon_namespace: internal-node taxa skipped"),
+    ("C14", TM + "_tree.py", "        if (\n            start_node.edge.bipartition.leafset_bitmask & leafset_bitmask\n        ) != leafset_bitmask:\n            return None",
+     "        if not (start_node.edge.bipartition.leafset_bitmask & leafset_bitmask):\n            return None", "mrca: None only when no taxon at all is on the tree"),
+    ("C14", TM + "_tree.py", "                        #   required taxa as descendants, so we return the last_match\n                        return last_match",
+     "                        #   required taxa as descendants, so we return the last_match\n                        return curr_node", "mrca: partial overlap returns the child"),
+    ("C14", TM + "_tree.py", "                            while curr_node.num_child_nodes() == 1:\n                                curr_node, = curr_node.child_nodes()\n                            return curr_node",
+     "                            return curr_node", "mrca: unifurcations not stepped down"),
+    ("C14", TM + "_tree.py", "                        last_match = curr_node\n                        nd_source = iter(curr_node.child_nodes())",
+     "                        nd_source = iter(curr_node.child_nodes())", "mrca: last_match not advanced on descent"),
     ("C17", TM + "_tree.py", "                        if d > ultrametricity_precision:", "                        if d >= ultrametricity_precision:",
      "calc_node_ages: a difference equal to the precision is rejected"),
     ("C17", TM + "_tree.py", "            if len(child_nodes) == 0:\n                node.age = 0.0", "            if len(child_nodes) == 0:\n                node.age = 1.0",
